@@ -712,6 +712,13 @@ DISPENSO_INLINE void ThreadPool::scheduleImplPlaced(
             DISPENSO_VERIF_POINT("TpSetStealBit", this);
             stealRingsWithWork_.fetch_or(uint64_t{1} << stealIdx, std::memory_order_release);
           }
+          // The sleeper was woken before the task became visible in the steal ring: it may already
+          // have scanned, found nothing and be parking again (and the kernel may have released a
+          // different waiter than the one claimed).  Now that the task is published, bump the
+          // group's epoch and wake its waiters once more.  This must not depend on the sleep
+          // mask: a worker that is between its last probe and enterSleep() is not in the mask yet;
+          // it either sees the new epoch or is released by the wake.
+          ws->waiterFor(wokeThread).bumpAndWakeAll();
           return;
         }
       }
